@@ -127,7 +127,7 @@ theorem resolve_eq_declOf (s : Schema) (p : Particle) (name : String) :
   | elem d sub =>
     simp only [Particle.resolve, declOf, Schema.getElement]
     by_cases h : d.name = name <;> simp [h]
-  | any ns => rfl
+  | any ns sk => rfl
 
 theorem getElement_some {s : Schema} {name : String} {d : ElemDecl}
     (h : s.getElement name = some d) : d ∈ s.elements ∧ d.name = name := by
@@ -149,37 +149,92 @@ theorem getElement_of_mem {s : Schema} (hu : Consistent s) {name : String} {d : 
     have : d'.name = name := by simpa using h2
     rw [hu.globalsUnique d' h1 d hm (by rw [this, hn])]
 
-theorem findParticle_some {s : Schema} {name : String} {ps : List Particle} {r : Option ElemDecl}
-    (h : findParticle s name ps = some r) :
-    ∃ p ∈ ps, p.matches name = true ∧ p.resolve s name = r := by
-  induction ps with
-  | nil => simp [findParticle] at h
-  | cons p ps ih =>
-    simp only [findParticle] at h
-    split at h
-    · rename_i hm
-      exact ⟨p, List.mem_cons_self, hm, by simpa using h⟩
-    · obtain ⟨q, hq, h1, h2⟩ := ih h
-      exact ⟨q, List.mem_cons_of_mem _ hq, h1, h2⟩
+theorem declares_matches {p : Particle} {name : String} (h : p.declares name = true) :
+    p.matches name = true := by
+  cases p with
+  | elem d sub => simp only [Particle.declares] at h; simp [Particle.matches, h]
+  | any ns sk => simp [Particle.declares] at h
 
-theorem findParticle_none {s : Schema} {name : String} {ps : List Particle}
-    (h : findParticle s name ps = none) : ∀ p ∈ ps, p.matches name = false := by
+def elemMatch (name : String) (p : Particle) : Bool := !p.isWild && p.matches name
+def wildMatch (name : String) (p : Particle) : Bool := p.isWild && p.matches name
+
+def combine (fb e w : Option Particle) : Option Particle :=
+  match fb with
+  | some f => if f.isWild then (match e with | some x => some x | none => some f) else some f
+  | none => match e with | some x => some x | none => w
+
+theorem scan_eq (name : String) : ∀ (ps : List Particle) (fb : Option Particle),
+    scanParticles name ps fb =
+      match ps.find? (·.declares name) with
+      | some p => some p
+      | none => combine fb (ps.find? (elemMatch name)) (ps.find? (wildMatch name)) := by
+  intro ps
   induction ps with
-  | nil => intro p hp; cases hp
-  | cons p ps ih =>
-    simp only [findParticle] at h
-    split at h
-    · simp at h
-    · rename_i hm
-      intro q hq
-      cases hq with
-      | head => simpa using hm
-      | tail _ hq => exact ih h q hq
+  | nil => intro fb; cases fb <;> simp [scanParticles, combine]
+  | cons q qs ih =>
+    intro fb
+    simp only [scanParticles, List.find?_cons]
+    by_cases hd : q.declares name = true
+    · simp [hd]
+    · simp only [hd, Bool.false_eq_true, if_false]
+      rw [ih]
+      cases hf : qs.find? (·.declares name) with
+      | some p => simp
+      | none =>
+        have hw2 : q.isWild = true ∨ q.isWild = false := by cases q.isWild <;> simp
+        have hm2 : q.matches name = true ∨ q.matches name = false := by cases q.matches name <;> simp
+        rcases hm2 with hm | hm <;> rcases hw2 with hw | hw <;> cases fb with
+        | none =>
+          simp only [elemMatch, wildMatch, betterThan, hm, hw, combine] <;>
+            (cases qs.find? (elemMatch name) <;> simp [elemMatch, wildMatch, hw, hm])
+        | some f =>
+          have hf2 : f.isWild = true ∨ f.isWild = false := by cases f.isWild <;> simp
+          rcases hf2 with hfw | hfw <;>
+            simp only [elemMatch, wildMatch, betterThan, hm, hw, hfw, combine] <;>
+            (cases qs.find? (elemMatch name) <;> simp [elemMatch, wildMatch, hfw, hw, hm])
+
+theorem scan_none_eq (name : String) (ps : List Particle) :
+    scanParticles name ps none =
+      match ps.find? (·.declares name) with
+      | some p => some p
+      | none => match ps.find? (elemMatch name) with
+        | some p => some p
+        | none => ps.find? (wildMatch name) := by
+  rw [scan_eq]; rfl
+
+theorem find?_some_of_mem {p : Particle → Bool} {l : List Particle} {x : Particle} (hx : x ∈ l) (hp : p x = true) :
+    ∃ y, l.find? p = some y := by
+  cases h : l.find? p with
+  | some y => exact ⟨y, rfl⟩
+  | none => have := List.find?_eq_none.mp h x hx; simp [hp] at this
 
 theorem modelGroup_complex {s : Schema} {id : Nat} {ct : CType} (hct : s.ctypes[id]? = some ct)
     (hns : ∀ t, ct.content ≠ .simple t) : modelGroup s (.complex id) = some (id, ct.particles) := by
   unfold modelGroup Schema.ctype?
   simp only [hct]
+
+theorem modelGroup_complex_inv {s : Schema} {ty : Ty} {id : Nat} {ps : List Particle}
+    (hmg : modelGroup s ty = some (id, ps)) :
+    ty = .complex id ∧ ∃ ct, s.ctypes[id]? = some ct ∧ ps = ct.particles ∧ ∀ t, ct.content ≠ .simple t := by
+  cases ty with
+  | simple t => simp [modelGroup] at hmg
+  | complex id' =>
+    obtain ⟨ct, hct, rfl⟩ := modelGroup_id hmg
+    have hid : id' = id := by
+      unfold modelGroup at hmg
+      split at hmg
+      · simp at hmg
+      · rename_i id'' heq
+        cases heq
+        split at hmg
+        · simp at hmg
+        · split at hmg
+          · simp at hmg
+          · simp at hmg; exact hmg.1
+    subst hid
+    refine ⟨rfl, ct, by simpa [Schema.ctype?] using hct, rfl, ?_⟩
+    intro t hc
+    simp [modelGroup, hct, hc] at hmg
 
 /-- soundness: a declaration found by the walk is a governing declaration -/
 theorem declFor_sound {s : Schema} {ctx : Option Ty} {name : String} {d : ElemDecl}
@@ -196,54 +251,133 @@ theorem declFor_sound {s : Schema} {ctx : Option Ty} {name : String} {d : ElemDe
     | some idps =>
       obtain ⟨id, ps⟩ := idps
       rw [hmg] at h
-      simp only at h
-      cases hfp : findParticle s name ps with
-      | none => rw [hfp] at h; simp at h
-      | some r =>
-        rw [hfp] at h
-        simp at h
-        subst h
-        obtain ⟨p, hp, hm, hr⟩ := findParticle_some hfp
-        -- ty is complex id with a model group
-        cases ty with
-        | simple t => simp [modelGroup] at hmg
-        | complex id' =>
-          obtain ⟨ct, hct, rfl⟩ := modelGroup_id hmg
-          have hid : id' = id := by
-            unfold modelGroup at hmg
-            split at hmg
-            · simp at hmg
-            · rename_i id'' heq
-              cases heq
-              split at hmg
-              · simp at hmg
-              · split at hmg
-                · simp at hmg
-                · simp at hmg; exact hmg.1
-          subst hid
-          have hns : ∀ t, ct.content ≠ .simple t := by
-            intro t hc
-            simp [modelGroup, hct, hc] at hmg
-          refine .particle id' ct p name d (by simpa [Schema.ctype?] using hct) hns hp hm ?_
-          rw [← resolve_eq_declOf]; exact hr
+      simp only [findParticle, scan_none_eq] at h
+      obtain ⟨rfl, ct, hct, rfl, hns⟩ := modelGroup_complex_inv hmg
+      cases hfd : ct.particles.find? (·.declares name) with
+      | some p =>
+        rw [hfd] at h
+        simp only [Option.map_some, Option.join_some] at h
+        have hp := List.mem_of_find?_eq_some hfd
+        have hdec := List.find?_some hfd
+        cases p with
+        | any ns sk => simp [Particle.declares] at hdec
+        | elem d' sub =>
+          simp only [Particle.declares, beq_iff_eq] at hdec
+          simp only [Particle.resolve, hdec, beq_self_eq_true, if_true, Option.some.injEq] at h
+          subst h; subst hdec
+          exact .declared id ct d' sub hct hns hp
+      | none =>
+        rw [hfd] at h
+        have hno : ∀ d' sub', Particle.elem d' sub' ∈ ct.particles → d'.name ≠ name := by
+          intro d' sub' hm hn
+          have := List.find?_eq_none.mp hfd _ hm
+          simp [Particle.declares, hn] at this
+        cases hfe : ct.particles.find? (elemMatch name) with
+        | some p =>
+          rw [hfe] at h
+          simp only [Option.map_some, Option.join_some] at h
+          have hp := List.mem_of_find?_eq_some hfe
+          have hm := List.find?_some hfe
+          cases p with
+          | any ns sk => simp [elemMatch, Particle.isWild] at hm
+          | elem hd sub =>
+            simp only [elemMatch, Particle.isWild, Bool.not_false, Bool.true_and] at hm
+            have hne := hno hd sub hp
+            have hsub : name ∈ sub := by
+              simp only [Particle.matches, Bool.or_eq_true, beq_iff_eq, List.contains_eq_mem,
+                decide_eq_true_eq] at hm
+              rcases hm with hm | hm
+              · exact absurd hm hne
+              · exact hm
+            exact .substitution id ct hd sub name d hct hns hno hp hsub (by rw [← resolve_eq_declOf]; exact h)
+        | none =>
+          rw [hfe] at h
+          simp only at h
+          cases hfw : ct.particles.find? (wildMatch name) with
+          | none => rw [hfw] at h; simp at h
+          | some p =>
+            rw [hfw] at h
+            simp only [Option.map_some, Option.join_some] at h
+            have hp := List.mem_of_find?_eq_some hfw
+            have hm := List.find?_some hfw
+            cases p with
+            | elem hd sub => simp [wildMatch, Particle.isWild] at hm
+            | any ns sk =>
+              simp only [wildMatch, Particle.isWild, Bool.true_and] at hm
+              refine .wildcard id ct ns sk name d hct hns ?_ hp hm (by rw [← resolve_eq_declOf]; exact h)
+              intro d' sub' hmem
+              have := List.find?_eq_none.mp hfe _ hmem
+              simpa [elemMatch, Particle.isWild] using this
 
 /-- completeness: under a consistent schema the walk finds every governing declaration -/
 theorem declFor_complete {s : Schema} (hs : Consistent s) {ctx : Option Ty} {name : String}
     {d : ElemDecl} (h : GovDecl s ctx name d) : declFor s ctx name = some d := by
   cases h with
   | root _ _ hm hn => exact getElement_of_mem hs hm hn
-  | particle id ct p _ _ hct hns hp hm hd =>
+  | declared id ct _ sub hct hns hp =>
     unfold declFor
-    simp only [modelGroup_complex hct hns]
-    cases hfp : findParticle s name ct.particles with
-    | none =>
-      have := findParticle_none hfp p hp
-      rw [hm] at this; cases this
-    | some r =>
-      obtain ⟨q, hq, hqm, hqr⟩ := findParticle_some hfp
-      have := hs.edc id ct hct q hq p hp name hqm hm
-      rw [← resolve_eq_declOf, hqr, hd] at this
-      simp [this]
+    simp only [modelGroup_complex hct hns, findParticle, scan_none_eq]
+    obtain ⟨q, hq⟩ := find?_some_of_mem (p := (·.declares d.name)) hp (by simp [Particle.declares])
+    rw [hq]
+    simp only [Option.map_some, Option.join_some]
+    have hqm := List.mem_of_find?_eq_some hq
+    have hdec := List.find?_some hq
+    cases q with
+    | any ns sk => simp [Particle.declares] at hdec
+    | elem d' sub' =>
+      simp only [Particle.declares, beq_iff_eq] at hdec
+      have := hs.edc id ct hct d' sub' d sub hqm hp hdec
+      subst this
+      simp [Particle.resolve]
+  | substitution id ct hd sub _ _ hct hns hno hp hsub hdo =>
+    unfold declFor
+    simp only [modelGroup_complex hct hns, findParticle, scan_none_eq]
+    have hfd : ct.particles.find? (·.declares name) = none := by
+      apply List.find?_eq_none.mpr
+      intro q hq
+      cases q with
+      | any ns sk => simp [Particle.declares]
+      | elem d' sub' => simpa [Particle.declares] using hno d' sub' hq
+    have hmatch : Particle.matches (.elem hd sub) name = true := by simp [Particle.matches, hsub]
+    obtain ⟨q, hq⟩ := find?_some_of_mem (p := elemMatch name) hp (by simp [elemMatch, Particle.isWild, hmatch])
+    rw [hfd, hq]
+    simp only [Option.map_some, Option.join_some]
+    have hqm := List.mem_of_find?_eq_some hq
+    have hqe := List.find?_some hq
+    cases q with
+    | any ns sk => simp [elemMatch, Particle.isWild] at hqe
+    | elem h' sub' =>
+      simp only [elemMatch, Particle.isWild, Bool.not_false, Bool.true_and] at hqe
+      rw [resolve_eq_declOf, hs.substConsistent id ct hct h' sub' hd sub name hqm hp hqe hmatch, hdo]
+  | wildcard id ct ns sk _ _ hct hns hnoe hp hm hdo =>
+    unfold declFor
+    simp only [modelGroup_complex hct hns, findParticle, scan_none_eq]
+    have hfd : ct.particles.find? (·.declares name) = none := by
+      apply List.find?_eq_none.mpr
+      intro q hq
+      cases q with
+      | any ns sk => simp [Particle.declares]
+      | elem d' sub' =>
+        have h1 := hnoe d' sub' hq
+        cases hdq : (Particle.elem d' sub').declares name with
+        | false => simp
+        | true => rw [declares_matches hdq] at h1; cases h1
+    have hfe : ct.particles.find? (elemMatch name) = none := by
+      apply List.find?_eq_none.mpr
+      intro q hq
+      cases q with
+      | any ns sk => simp [elemMatch, Particle.isWild]
+      | elem d' sub' => simp [elemMatch, Particle.isWild, hnoe d' sub' hq]
+    obtain ⟨q, hq⟩ := find?_some_of_mem (p := wildMatch name) hp (by simp [wildMatch, Particle.isWild, hm])
+    rw [hfd, hfe, hq]
+    simp only [Option.map_some, Option.join_some]
+    have hqm := List.mem_of_find?_eq_some hq
+    have hqe := List.find?_some hq
+    cases q with
+    | elem h' sub' => simp [wildMatch, Particle.isWild] at hqe
+    | any ns' sk' =>
+      simp only [wildMatch, Particle.isWild, Bool.true_and] at hqe
+      rw [resolve_eq_declOf, hs.wildConsistent id ct hct ns' sk' ns sk name hqm hp hqe hm, hdo]
 
 theorem assign_sound {s : Schema} {ctx : Option Ty} {n : String} {x : Xsi} {ty : Ty}
     {d : Option ElemDecl} (h : assign s ctx n x = (some ty, d)) : Governs s ctx n x ty d := by
